@@ -71,6 +71,9 @@ def _run_pool(jobs, nproc, deadline):
         now = time.time()
         while pending and len(running) < nproc and now < deadline:
             job = pending.pop(0)
+            if job.get('kind', 'symx') == 'symx':
+                # never start a job with more budget than the check has left: it then stops by itself and reports what it explored
+                job['budget_s'] = max(10, min(job.get('budget_s', 300), deadline - now - 20))
             pc, cc = ctx.Pipe(duplex=False)
             p = ctx.Process(target=_worker, args=(job, cc), daemon=True)
             p.start()
